@@ -31,7 +31,8 @@
 EXTENDS Integers, Sequences, FiniteSets, TLC, Json
 
 CONSTANTS Sits,        \* set of situations [name, genesis, lastPow, valKeys, resEmpty]
-          PairsFor,    \* names of the situations for which all pairs are enumerated
+          PairsFor,    \* names of the situations for which pairs are enumerated
+          PairFields,  \* fields whose mutations take part in the pairs (singles always cover every field)
           ExtraSets    \* [name -> set of mutation sets] enumerated in addition
 
 VARIABLES case, hist
@@ -71,8 +72,9 @@ Wrong(s, f) ==
     [] f = "lclen" -> IF s.genesis THEN {"long"} ELSE {"short", "long"}
     [] f \in EFields -> IF s.genesis THEN {} ELSE EntryClasses
 Muts(s) == UNION {{[f |-> f, v |-> v] : v \in Wrong(s, f)} : f \in Fields}
+PMuts(s) == {m \in Muts(s) : m.f \in PairFields}
 MutSets(s) == {{}} \cup {{m} : m \in Muts(s)}
-              \cup (IF s.name \in PairsFor THEN {{p[1], p[2]} : p \in {q \in Muts(s) \X Muts(s) : q[1].f # q[2].f}} ELSE {})
+              \cup (IF s.name \in PairsFor THEN {{p[1], p[2]} : p \in {q \in PMuts(s) \X PMuts(s) : q[1].f # q[2].f}} ELSE {})
               \cup ExtraSets[s.name]
 Apply(ms) == [f \in Fields |-> IF \E m \in ms : m.f = f THEN (CHOOSE m \in ms : m.f = f).v ELSE "ok"]
 
